@@ -21,7 +21,7 @@ def run(tier, runner):
     ob = lifetime.obligations([p for p in progs if p.meta.get('elem') != 'NTRtm'])
     r_cf = ownership.check_first(progs + real)
     r_cf.require(10, 'operations that test the capacity limit themselves')
-    r_cd.require(20, 'constructs into container storage')
+    r_cd.require(15, 'constructs into container storage')
     r_tt.require(4, 'throw expressions of the vector headers')
     r_w.require(16, 'capacity requests')
     return {
